@@ -362,3 +362,119 @@ Proof.
   - exact HlM.
   - intros m Hm. apply HnthM. now apply sort_desc_In.
 Qed.
+
+(* ------------------------------------------------------------------ TT: the quadratic solved for a fractional rank IS the parameter count *)
+(* sum_i A_i * S_i * B_i over three lists, recursively and by index *)
+Fixpoint zip3sum (A : list Q) (S : list nat) (B : list Q) : Q :=
+  match A, S, B with
+  | a :: A', s :: S', b :: B' => (a * n2q s * b + zip3sum A' S' B')%Q
+  | _, _, _ => 0%Q
+  end.
+Lemma qsum_qsum0 l : (qsum l == qsum0 l)%Q.
+Proof.
+  induction l as [|x l IH]; [reflexivity|].
+  change (qsum (x :: l)) with (Qred (x + qsum l)). change (qsum0 (x :: l)) with (x + qsum0 l)%Q. rewrite Qred_correct, IH. reflexivity.
+Qed.
+Lemma qsum0_map_ext {X} (f g : X -> Q) l : (forall x, In x l -> (f x == g x)%Q) -> (qsum0 (map f l) == qsum0 (map g l))%Q.
+Proof.
+  induction l as [|x l IH]; intros H; simpl; [reflexivity|].
+  rewrite (H x (or_introl eq_refl)), IH; [reflexivity|]. intros y Hy. apply H. now right.
+Qed.
+Lemma zip3sum_index : forall m A S B, length A = m -> length S = m -> length B = m ->
+  (qsum0 (map (fun i => nth i A 0 * n2q (nth i S 0%nat) * nth i B 0)%Q (seq 0 m)) == zip3sum A S B)%Q.
+Proof.
+  induction m as [|m IH]; intros [|a A] [|s S] [|b B] HA HS HB; try discriminate; simpl; [reflexivity|].
+  rewrite <- seq_shift, map_map. simpl in HA, HS, HB.
+  rewrite <- (IH A S B) by lia. reflexivity.
+Qed.
+(* the middle coefficient of tt_quadratic: sum_{i = 1}^{n-2} av_{i-1} * shape_i * av_i *)
+Lemma tt_mid_coeff : forall (s0 : nat) (sh : list nat) (a0 : Q) (av : list Q), length sh = S (length av) ->
+  (qsum (map (fun i => Qred (nth (i - 1)%nat (a0 :: av) 0%Q * n2q (nth i (s0 :: sh) 0%nat) * nth i (a0 :: av) 0%Q)%Q) (seq 1 (length av)))
+   == zip3sum (removelast (a0 :: av)) (removelast sh) av)%Q.
+Proof.
+  intros s0 sh a0 av Hl. rewrite qsum_qsum0, <- seq_shift, map_map.
+  rewrite <- (zip3sum_index (length av)).
+  - apply qsum0_map_ext. intros i Hi. apply in_seq in Hi. rewrite Qred_correct.
+    replace (S i - 1) with i by lia. change (nth (S i) (s0 :: sh) 0%nat) with (nth i sh 0%nat). change (nth (S i) (a0 :: av) 0%Q) with (nth i av 0%Q).
+    assert (E1 : nth i (a0 :: av) 0%Q = nth i (removelast (a0 :: av)) 0%Q).
+    { rewrite <- (firstn_skipn (length av) (a0 :: av)) at 1.
+      assert (Hf : removelast (a0 :: av) = firstn (length av) (a0 :: av)).
+      { rewrite removelast_firstn_len. simpl length. f_equal. }
+      rewrite Hf. rewrite app_nth1; [reflexivity|]. rewrite firstn_length. simpl length. lia. }
+    assert (E2 : nth i sh 0%nat = nth i (removelast sh) 0%nat).
+    { assert (Hf : removelast sh = firstn (length av) sh) by (rewrite removelast_firstn_len; f_equal; lia).
+      rewrite Hf. rewrite <- (firstn_skipn (length av) sh) at 1. rewrite app_nth1; [reflexivity|]. rewrite firstn_length. lia. }
+    rewrite E1, E2. reflexivity.
+  - rewrite removelast_firstn_len, firstn_length. simpl length. lia.
+  - rewrite removelast_firstn_len, firstn_length. lia.
+  - reflexivity.
+Qed.
+(* parameter count of the TT with ranks (r0, c av_0, ..., c av_m-1, 1), unrolled along the cores *)
+Lemma tt_params_scaled c : forall (A : list Q) (sh : list nat), A <> [] -> length sh = length A ->
+  (tt_params sh (scaled c A ++ [1%Q]) == c * c * zip3sum (removelast A) (removelast sh) (tl A) + c * (last A 0 * n2q (last sh 0%nat)))%Q.
+Proof.
+  induction A as [|a A IH]; intros sh Hne Hl; [contradiction|].
+  destruct sh as [|s sh]; [discriminate|]. destruct A as [|a' A].
+  - destruct sh; [|discriminate]. simpl. ring.
+  - destruct sh as [|s' sh]; [discriminate|].
+    change (scaled c (a :: a' :: A) ++ [1%Q]) with ((c * a) :: (c * a') :: (scaled c A ++ [1%Q]))%Q.
+    change (tt_params (s :: s' :: sh) ((c * a) :: (c * a') :: (scaled c A ++ [1%Q]))%Q)
+      with ((c * a) * n2q s * (c * a') + tt_params (s' :: sh) (scaled c (a' :: A) ++ [1%Q]))%Q.
+    rewrite IH by (try discriminate; simpl in *; lia).
+    change (removelast (a :: a' :: A)) with (a :: removelast (a' :: A)).
+    change (removelast (s :: s' :: sh)) with (s :: removelast (s' :: sh)).
+    change (tl (a :: a' :: A)) with (a' :: A).
+    change (last (a :: a' :: A) 0%Q) with (last (a' :: A) 0%Q). change (last (s :: s' :: sh) 0%nat) with (last (s' :: sh) 0%nat).
+    cbn [zip3sum]. destruct A; simpl tl; ring.
+Qed.
+(* TT of order >= 3, proportional ranks (constant_rank = False): at the rational ranks (1, c a_1, ..., c a_N-1, 1), a_k the averaged neighbouring
+   sizes, the parameter count minus the requested q * prod(shape) IS the quadratic a c^2 + b c + c0 whose root the code takes, for every c *)
+Theorem tt_fraction_identity shape q c : 3 <= length shape ->
+  (tt_params shape (1%Q :: scaled c (avg_dims shape) ++ [1%Q]) - q * n2q (prod shape) == tt_residual (tt_quadratic shape q) c)%Q.
+Proof.
+  intros Hn. pose proof (avg_dims_length shape) as Hav.
+  unfold tt_quadratic. cbv zeta. remember (avg_dims shape) as av eqn:Eav. clear Eav.
+  destruct shape as [|s0 sh]; [simpl in Hn; lia|]. simpl length in *.
+  destruct av as [|a0 av']; [simpl in Hav; lia|]. destruct av' as [|a1 av'']; [simpl in Hav; lia|].
+  set (av' := a1 :: av'') in *.
+  assert (Hsh : length sh = S (length av')) by (unfold av' in *; simpl in *; lia).
+  assert (Hne : sh <> []) by (destruct sh; [simpl in Hsh; lia | discriminate]).
+  unfold tt_residual. rewrite !Qred_correct.
+  replace (S (length sh) - 2) with (length av') by lia.
+  rewrite (tt_mid_coeff s0 sh a0 av' Hsh).
+  change (scaled c (a0 :: av') ++ [1%Q]) with ((c * a0)%Q :: (scaled c av' ++ [1%Q])).
+  assert (Hsplit : (tt_params (s0 :: sh) (1%Q :: (c * a0)%Q :: (scaled c av' ++ [1%Q])) ==
+                    1 * n2q s0 * (c * a0) + tt_params sh (scaled c (a0 :: av') ++ [1%Q]))%Q) by reflexivity.
+  rewrite Hsplit. rewrite (tt_params_scaled c (a0 :: av') sh) by (try discriminate; simpl; simpl in Hsh; lia).
+  change (tl (a0 :: av')) with av'. change (hd 0%nat (s0 :: sh)) with s0. change (hd 0%Q (a0 :: av')) with a0.
+  rewrite (last_cons_ne s0 sh 0%nat Hne).
+  ring.
+Qed.
+
+(* TT with constant_rank = True: ranks (1, r, ..., r, 1) *)
+Lemma tt_params_const_mid r : forall sh, sh <> [] ->
+  (tt_params sh (repeat r (length sh) ++ [1%Q]) == r * r * n2q (sum_list (removelast sh)) + r * n2q (last sh 0%nat))%Q.
+Proof.
+  induction sh as [|s sh IH]; intros Hne; [contradiction|]. destruct sh as [|s' sh].
+  - simpl. unfold n2q at 2. simpl. ring.
+  - change (repeat r (length (s :: s' :: sh)) ++ [1%Q]) with (r :: (repeat r (length (s' :: sh)) ++ [1%Q])).
+    change (repeat r (length (s' :: sh)) ++ [1%Q]) with (r :: (repeat r (length sh) ++ [1%Q])) at 1.
+    change (tt_params (s :: s' :: sh) (r :: r :: (repeat r (length sh) ++ [1%Q])))
+      with (r * n2q s * r + tt_params (s' :: sh) (r :: (repeat r (length sh) ++ [1%Q])))%Q.
+    change (r :: (repeat r (length sh) ++ [1%Q])) with (repeat r (length (s' :: sh)) ++ [1%Q]).
+    rewrite IH by discriminate.
+    change (removelast (s :: s' :: sh)) with (s :: removelast (s' :: sh)). change (last (s :: s' :: sh) 0%nat) with (last (s' :: sh) 0%nat).
+    change (sum_list (s :: removelast (s' :: sh))) with (s + sum_list (removelast (s' :: sh))). rewrite n2q_add. ring.
+Qed.
+Theorem tt_fraction_identity_const shape q r : 2 <= length shape ->
+  (tt_params shape (1%Q :: repeat r (length shape - 1) ++ [1%Q]) - q * n2q (prod shape) == tt_residual (tt_quadratic_const shape q) r)%Q.
+Proof.
+  intros Hn. destruct shape as [|s0 sh]; [simpl in Hn; lia|]. destruct sh as [|s1 sh]; [simpl in Hn; lia|].
+  replace (length (s0 :: s1 :: sh) - 1) with (length (s1 :: sh)) by (simpl; lia).
+  assert (Hsplit : (tt_params (s0 :: s1 :: sh) (1%Q :: repeat r (length (s1 :: sh)) ++ [1%Q]) ==
+                    1 * n2q s0 * r + tt_params (s1 :: sh) (repeat r (length (s1 :: sh)) ++ [1%Q]))%Q) by reflexivity.
+  rewrite Hsplit, tt_params_const_mid by discriminate.
+  unfold tt_quadratic_const, tt_residual. rewrite !Qred_correct.
+  change (tl (s0 :: s1 :: sh)) with (s1 :: sh). change (hd 0%nat (s0 :: s1 :: sh)) with s0.
+  change (last (s0 :: s1 :: sh) 0%nat) with (last (s1 :: sh) 0%nat). rewrite n2q_add. ring.
+Qed.
